@@ -1862,6 +1862,21 @@ struct Explorer {
             if (r.events[e].kind == Event::kFinish && r.cmds[r.events[e].cmd].spec.id() == cs.id) early = true;
         if (dyndep_load_event >= 0 && !Started(r, cs.id)) early = true;   // was up to date: not in the plan
       }
+      // is an edge of the cycle there only because a dyndep file makes a node an (implicit) output of a statement?
+      bool via_dyn_out = false;
+      for (int si : cyc_stmts) {
+        const Stmt& ds = v->stmts[si];
+        if (ds.dyndep.empty()) continue;
+        for (auto& o : ds.spec.outs) {
+          if (find(ds.outs.begin(), ds.outs.end(), o) != ds.outs.end()) continue;   // declared in the manifest
+          for (int ti : cyc_stmts) {
+            vector<string> tin = EffectiveInputs(*v, v->stmts[ti], before, &after, nullptr);
+            if (find(tin.begin(), tin.end(), o) != tin.end()) via_dyn_out = true;
+          }
+        }
+      }
+      x.facts.set("cycle_runs_through_an_output_supplied_by_dyndep_information", via_dyn_out);
+      x.facts.set("ninja_stopped_with_an_error", r.exit_code != 0);
       x.facts.set("dyndep_file_produced_in_this_build", dyndep_load_event >= 0);
       x.facts.set("a_cycle_statement_was_finished_or_up_to_date_when_the_dyndep_file_was_loaded", early);
       out->push_back(x);
